@@ -18,16 +18,16 @@ pub struct S2 {
     tx_ops: Vec<Vec<String>>,
 }
 
-type TxRes = TransactionClosureResult<String, String>;
+pub(crate) type TxRes = TransactionClosureResult<String, String>;
 
-fn conv<T, E>(r: TransactionClosureResult<T, E>, f: impl Fn(&E) -> String) -> TransactionClosureResult<T, String> {
+pub(crate) fn conv<T, E>(r: TransactionClosureResult<T, E>, f: impl Fn(&E) -> String) -> TransactionClosureResult<T, String> {
     r.map_err(|e| match e {
         TransactionError::Abort(e) => TransactionError::Abort(f(&e)),
         TransactionError::Stm(s) => TransactionError::Stm(s),
     })
 }
 
-fn stm<T>(r: honeycomb_core::stm::StmClosureResult<T>) -> TransactionClosureResult<T, String> {
+pub(crate) fn stm<T>(r: honeycomb_core::stm::StmClosureResult<T>) -> TransactionClosureResult<T, String> {
     r.map_err(TransactionError::Stm)
 }
 
@@ -62,7 +62,7 @@ fn nats(v: impl IntoIterator<Item = DartIdType>) -> String {
     v.into_iter().map(|d| d.to_string()).collect::<Vec<_>>().join(" ")
 }
 
-fn d(s: &str) -> Option<DartIdType> {
+pub(crate) fn d(s: &str) -> Option<DartIdType> {
     s.parse().ok()
 }
 
@@ -222,7 +222,7 @@ impl S2 {
                 }
                 stm(self.write_attr_tx(t, st, opt!(d(x)), None)).map(Self::term)
             }
-            _ => return None,
+            _ => return crate::k2::tx_op(self, t, &tk),
         })
     }
 
